@@ -6,6 +6,7 @@ import (
 	"math"
 	"sort"
 	"strconv"
+	"strings"
 
 	"github.com/ozanh/ugo"
 )
@@ -250,6 +251,9 @@ func SexpOfValue(o ugo.Object) *Sexp {
 
 func errSexp(err error) *Sexp {
 	name, msg := "error", err.Error()
+	if i := strings.Index(msg, "\nGo Stack:"); i >= 0 {
+		msg = msg[:i] // Go stack text is not an observable
+	}
 	switch e := err.(type) {
 	case *ugo.Error:
 		name, msg = e.Name, e.Message
